@@ -35,6 +35,7 @@ META = {
 REQUIRED = ("steps", "cache_reads_compared", "out_of_order_finishes", "finished_templates_by_cached_client", "late_joiner_reads", "histories_multi_study", "thread_schedules_b_inside_window", "many_unfinished_scenarios_slow_path_taken")
 SHARDS = {"quick": 10, "thorough": 15}
 WATCHDOG_S = {"quick": 900, "thorough": 5 * 3600}
+BUDGET_S = {"quick": 600, "thorough": 2700}
 KINDS = ["cached_sqlite", "cached_sqlite", "grpc:sqlite", "grpc:cached_sqlite", "grpc:inmemory", "grpc:journal_file", "cached_sqlite", "grpc:sqlite",
          "grpc:cached_sqlite", "grpc:journal_redis", "cached_sqlite", "grpc:inmemory", "cached_sqlite", "grpc:sqlite", "grpc:cached_sqlite"]
 
